@@ -15,6 +15,7 @@ import (
 	"github.com/thushan/olla/internal/adapter/proxy/common"
 	"github.com/thushan/olla/internal/adapter/proxy/core"
 	"github.com/thushan/olla/internal/adapter/proxy/olla"
+	"github.com/thushan/olla/internal/adapter/stats"
 	"github.com/thushan/olla/internal/zz_verif/scen"
 	"github.com/thushan/olla/internal/zz_verif/stack"
 	"github.com/thushan/olla/internal/zz_verif/vlib"
@@ -79,5 +80,7 @@ func main() {
 		th++
 	}
 	f.Def("engineBreakerThreshold", "Nat", vlib.LeanNat(uint64(th)), "consecutive RecordFailure calls after which the olla engine's per-endpoint breaker reports IsOpen")
+	f.Def("collectorEndpointTTL", "Int", vlib.LeanNat(uint64(stats.EndpointTTL.Nanoseconds())), "stats.EndpointTTL in ns: per-endpoint statistics not refreshed for this long are dropped by the collector's clean-up pass")
+	f.Def("collectorCleanupInterval", "Int", vlib.LeanNat(uint64(stats.CleanupInterval.Nanoseconds())), "stats.CleanupInterval in ns: RecordRequest runs the clean-up pass at most this often")
 	f.Write(ns)
 }
